@@ -1,0 +1,82 @@
+// MIT License
+//
+// Copyright (c) 2022-2026 GoAkt Team
+//
+// Permission is hereby granted, free of charge, to any person obtaining a copy
+// of this software and associated documentation files (the "Software"), to deal
+// in the Software without restriction, including without limitation the rights
+// to use, copy, modify, merge, publish, distribute, sublicense, and/or sell
+// copies of the Software, and to permit persons to whom the Software is
+// furnished to do so, subject to the following conditions:
+//
+// The above copyright notice and this permission notice shall be included in all
+// copies or substantial portions of the Software.
+//
+// THE SOFTWARE IS PROVIDED "AS IS", WITHOUT WARRANTY OF ANY KIND, EXPRESS OR
+// IMPLIED, INCLUDING BUT NOT LIMITED TO THE WARRANTIES OF MERCHANTABILITY,
+// FITNESS FOR A PARTICULAR PURPOSE AND NONINFRINGEMENT. IN NO EVENT SHALL THE
+// AUTHORS OR COPYRIGHT HOLDERS BE LIABLE FOR ANY CLAIM, DAMAGES OR OTHER
+// LIABILITY, WHETHER IN AN ACTION OF CONTRACT, TORT OR OTHERWISE, ARISING FROM,
+// OUT OF OR IN CONNECTION WITH THE SOFTWARE OR THE USE OR OTHER DEALINGS IN THE
+// SOFTWARE.
+
+//go:build verif
+
+package client
+
+import "sync/atomic"
+
+// Verification harness only: read-only projections of the balancers' state and a
+// way to preset the round-robin counter (to reach the uint32 wrap-around without
+// issuing 2^32 calls).
+
+// VerifAddress returns the node address.
+func VerifAddress(n *Node) string {
+	if n == nil {
+		return ""
+	}
+	return n.getAddress()
+}
+
+func verifAddresses(nodes []*Node) []string {
+	out := make([]string, len(nodes))
+	for i, n := range nodes {
+		out[i] = n.getAddress()
+	}
+	return out
+}
+
+// VerifSetCounter presets the round-robin counter.
+func (x *RoundRobin) VerifSetCounter(v uint32) {
+	x.locker.Lock()
+	atomic.StoreUint32(&x.next, v)
+	x.locker.Unlock()
+}
+
+// VerifCounter returns the round-robin counter.
+func (x *RoundRobin) VerifCounter() uint32 {
+	x.locker.Lock()
+	defer x.locker.Unlock()
+	return atomic.LoadUint32(&x.next)
+}
+
+// VerifNodes returns the addresses of the pool in its internal order.
+func (x *RoundRobin) VerifNodes() []string {
+	x.locker.Lock()
+	defer x.locker.Unlock()
+	return verifAddresses(x.nodes)
+}
+
+// VerifNodes returns the addresses of the pool in its internal order.
+func (x *Random) VerifNodes() []string {
+	x.locker.Lock()
+	defer x.locker.Unlock()
+	return verifAddresses(x.nodes)
+}
+
+// VerifNodes returns the addresses of the pool in its internal order.
+func (x *LeastLoad) VerifNodes() []string {
+	x.locker.Lock()
+	defer x.locker.Unlock()
+	return verifAddresses(x.nodes)
+}
